@@ -5,6 +5,9 @@ CONSTANTS
   Drops = {0, 1, 3}
   Sizes = {0, 1, 3}
   MaxLen = 2
+  SeqOpts = {TRUE}
+  TsOpts = {TRUE}
+  Rebinds = FALSE
   Impl = "carry"
 INIT Init
 NEXT Next
